@@ -101,6 +101,7 @@ class Trx:
 		self.fh = None       # (hsn, maio, [(rx, tx), ...])
 		self.ver = 0
 		self.queue = []
+		self.maybe = []      # bursts that were "behind" only in the integer view of the wrap
 		self.ta = 0
 		self.nominal = 50
 		self.att = 0
@@ -131,7 +132,7 @@ class Trx:
 
 
 class Burst:
-	__slots__ = ("fn", "tn", "pwr", "bits", "ver", "seq")
+	__slots__ = ("fn", "tn", "pwr", "bits", "ver", "seq", "ambiguous")
 
 	def __init__(self, d, seq):
 		self.fn = d["fn"]
@@ -140,6 +141,7 @@ class Burst:
 		self.bits = d["bits"]
 		self.ver = d["ver"]
 		self.seq = seq
+		self.ambiguous = False
 
 
 class Entry:
@@ -225,6 +227,7 @@ class UmModel:
 				if x.queue:
 					self.probe("queue-cleared-by-poweroff", len(x.queue))
 				x.queue = []
+				x.maybe = []
 				x.fh = None
 		if T.clock_owner:
 			if T.running and T not in self.clock_links:
@@ -379,6 +382,10 @@ class UmModel:
 		if not T.running:
 			self.probe("data-while-idle")
 			return "idle"
+		if d["fn"] >= HYPER:
+			# no frame of the hyperframe has this number: whatever happens to it is a don't-care
+			self.probe("data-beyond-hyperframe")
+			return "beyond-hyperframe"
 		self.seq += 1
 		T.queue.append(Burst(d, self.seq))
 		self.probe("data-accepted")
@@ -400,6 +407,10 @@ class UmModel:
 			due = []
 			for b in S.queue:
 				if b.fn < fn:
+					# Numerically behind — but a frame number just after the hyperframe wrap is *ahead*
+					# of a clock just before it.  The statement leaves open whether such a burst is
+					# "already passed" (integer view, what the code does) or still due (modular view).
+					b.ambiguous = b.fn < HYPER and (b.fn - fn) % HYPER < HYPER // 2
 					stales.append((S, b))
 				elif b.fn == fn:
 					due.append(b)
@@ -409,6 +420,21 @@ class UmModel:
 			for b in due:
 				emitted.append((S, b))
 				self._emit(S, b, fn, entries)
+			# bursts kept by a modular-view implementation: their emission is optional
+			still = []
+			for b in S.maybe:
+				if b.fn == fn:
+					before = len(entries)
+					self._emit(S, b, fn, entries)
+					for e in entries[before:]:
+						e.optional = True
+						if e.suppress == "cand":
+							e.suppress = "maybe"
+							e.R.taint.add("drop")
+					self.probe("wrap-ambiguous-emission")
+				elif (b.fn - fn) % HYPER < HYPER // 2:
+					still.append(b)
+			S.maybe = still
 		# FAKE_DROP: within one tick, which of several simultaneous bursts towards the same
 		# receiver count as "the next n" is left open; the number is not.
 		per_r = {}
@@ -530,6 +556,10 @@ class Monitor:
 		got = sorted(p for _h, p in binds)
 		if got != want:
 			self.bad("ports.bind-plan", got=got, want=want)
+		addr = self.m.cfg.get("bind_addr", "0.0.0.0")
+		wrong = sorted({h for h, _p in binds if h != addr})
+		if wrong:
+			self.bad("ports.bind-plan", bound_to=wrong, want=addr)
 
 	def feed(self, ev):
 		t, kind, kw = ev
@@ -570,6 +600,9 @@ class Monitor:
 			self._tick_end(t, kw["fn"])
 		elif kind == "log":
 			if self.in_tick is not None and STALE_RE.search(kw["msg"]):
+				fns = [int(x) for x in re.findall(r"fn=(\d+)", kw["msg"])]
+				if fns and max(fns) >= HYPER:
+					return  # report about a burst beyond the hyperframe: don't-care
 				self.tick_logs.append(kw["msg"])
 			elif STALE_RE.search(kw["msg"]):
 				self.bad("queue.stale-report", why="stale report outside a clock tick", msg=kw["msg"][:100])
@@ -731,22 +764,43 @@ class Monitor:
 		inds, entries, stales, emitted, drop_counts = self.tick_exp
 		m = self.m
 		self.in_tick = None
-		# ---- stale reports
-		if len(self.tick_logs) != len(stales):
-			self.bad("queue.stale-report", fn=fn, reports=len(self.tick_logs), stale_bursts=len(stales),
+		# ---- stale reports (bursts that are behind only in the integer view of the hyperframe
+		# wrap may be reported stale now, or be kept and emitted in their frame: both accepted)
+		definite = [(S, b) for S, b in stales if not b.ambiguous]
+		ambiguous = [(S, b) for S, b in stales if b.ambiguous]
+		# the mirror case: a burst numbered just before the wrap while the clock is just after it
+		# is ahead in the integer view (waits, as the code does) but behind modulo the hyperframe
+		late = [(S, b) for S in m.trx if S.running for b in S.queue if b.fn > fn and 0 < (fn - b.fn) % HYPER < HYPER // 2]
+		if not (len(definite) <= len(self.tick_logs) <= len(stales) + len(late)):
+			self.bad("queue.stale-report", fn=fn, reports=len(self.tick_logs), stale_bursts=len(definite),
 				first=[(S.label(), b.fn) for S, b in stales[:3]])
 		else:
 			logs = list(self.tick_logs)
-			for S, b in stales:
+			for S, b in definite + ambiguous:
 				hit = None
 				for l in logs:
 					if ("fn=%d " % b.fn) in l + " " or l.endswith("fn=%d" % b.fn):
 						hit = l
 						break
 				if hit is None:
+					if b.ambiguous:
+						S.maybe.append(b)
+						m.probe("wrap-ambiguous-kept")
+						continue
 					self.bad("queue.stale-report", fn=fn, why="no report names the stale burst", burst_fn=b.fn, logs=[l[:80] for l in logs[:2]])
 					break
 				logs.remove(hit)
+				if b.ambiguous:
+					m.probe("wrap-ambiguous-stale")
+			for S, b in late:
+				for l in logs:
+					if ("fn=%d " % b.fn) in l + " " or l.endswith("fn=%d" % b.fn):
+						logs.remove(l)
+						S.queue.remove(b)
+						m.probe("wrap-ambiguous-stale")
+						break
+			if logs and not self.viols:
+				self.bad("queue.stale-report", fn=fn, why="stale report for a burst that is not stale", logs=[l[:80] for l in logs[:2]])
 		if stales:
 			m.probe("stale-burst", len(stales))
 			self.discharged += len(stales)
